@@ -31,6 +31,12 @@ pub mod push_ref;
 pub mod c01_step;
 #[cfg(feature = "pushvm")]
 pub mod c01_stepgen;
+#[cfg(feature = "pushvm")]
+pub mod c01_print;
+#[cfg(feature = "pushvm")]
+pub mod c01_exec;
+#[cfg(all(feature = "pushvm", feature = "thorough"))]
+pub mod c01_dispatch;
 #[cfg(feature = "c04")]
 pub mod c04_stack;
 #[cfg(feature = "c06")]
